@@ -317,3 +317,15 @@ Proof.
       * apply In_succs_del. tauto.
       * apply IHwalk; [intros Hx; apply Hn; right; exact Hx | right; exact Hw].
 Qed.
+
+(* the closure never lists a node twice *)
+Lemma close_NoDup : forall fuel g seen fr, NoDup seen -> NoDup (close fuel g seen fr).
+Proof.
+  induction fuel as [|f IH]; intros g seen fr H; simpl; [exact H|].
+  destruct (fresh g seen fr) eqn:E; [exact H|]. rewrite <- E. apply IH.
+  apply NoDup_app_disj; [exact H | apply dedup_NoDup |].
+  intros x Hx Hx'. apply fresh_In in Hx'. apply (proj2 Hx'). exact Hx.
+Qed.
+
+Lemma reach_NoDup : forall g r, NoDup (reach g r).
+Proof. intros. unfold reach. apply close_NoDup. constructor; [intros [] | constructor]. Qed.
